@@ -52,7 +52,8 @@
 EXTENDS Integers, Sequences, FiniteSets, TLC
 
 CONSTANTS NHosts,      \* the query plan is h1, h2, ... h<NHosts>, in this order
-          MaxUnprep    \* how often nodes may answer UNPREPARED during the execution
+          MaxUnprep,   \* how often nodes may answer UNPREPARED during the execution
+          SpecIds      \* id-space sizes explored together with a speculative execution (subset of {1, 2})
 
 Hosts == [i \in 1..NHosts |-> "h" \o ToString(i)]
 HostSet == {Hosts[i] : i \in 1..Len(Hosts)}
@@ -81,7 +82,7 @@ vars == <<cfg, plan, sent, srv, queue, final, pool, unprep, timer, free, hi, rid
 \*  ids not observed, whether _on_timeout finds a handler of this future on _connection under a _req_id that was
 \*  allocated on ANOTHER connection is a coincidence of two id counters the model does not follow)
 Configs == {c \in [pv : {4, 5}, sks : {"none", "ks"}, cks : {"none", "ks", "ks2"}, ids : {0, 1, 2}, spec : {0, 1}] :
-                c.spec = 1 => (c.sks = "ks" /\ c.cks = "ks" /\ c.ids \in {1, 2})}
+                c.spec = 1 => (c.sks = "ks" /\ c.cks = "ks" /\ c.ids \in SpecIds)}
 
 Exec(h) == [h |-> h, kind |-> "EXECUTE", q |-> "id", ks |-> "none"]
 \* same query text; the keyspace travels in the PREPARE iff the protocol carries it (v5)
